@@ -676,7 +676,12 @@ def policies_to_json(pol):
 _CURRENT = [None]
 
 
+class _Predecoded(Exception):
+    pass
+
+
 class ImplEngine(object):
+    _use_msg = None          # a request message decoded AHEAD of time by the caller (decode_wire), used by the next request()
     wire_door = 0            # requests that travelled through the real encoder + decoder (class default: some checks
     #                          build the object without __init__)
     def __init__(self, scripted_crypto=True, workdir=None):
@@ -770,6 +775,9 @@ class ImplEngine(object):
             # (KMIP 2.0 requests keep the object door: their wire form cannot carry everything the abstract request
             # holds - attribute indices, template names - so a decoded copy would not be the request the model is given)
             msg = None
+            if self._use_msg is not None:
+                msg, self._use_msg = self._use_msg, None
+                raise _Predecoded()
             req_b, smuggled = _substitute_empty(req) if req["version"] < 20 else (req, False)
             ops = [it.get("op") for it in req["items"]]
             wire = smuggled or ("locate" in ops and (req["version"] < 20 or all(o == "locate" for o in ops))) \
@@ -795,6 +803,8 @@ class ImplEngine(object):
                     self.wire_door -= 1
             if msg is None:
                 msg = build_request(req)
+        except _Predecoded:
+            used_wire = True
         except Exception as e:
             # the library's constructors / setters refuse a value the generator holds legal: this request cannot be
             # presented through this (object-level) door; it is dropped, never guessed at
@@ -868,6 +878,21 @@ class ImplEngine(object):
         return {"results": out, "_version": hv.major * 10 + hv.minor, "_wire": used_wire,
                 "_batch_count": resp.response_header.batch_count.value,
                 "_has_timestamp": resp.response_header.time_stamp is not None}
+
+    def decode_wire(self, req):
+        """the request as a session would hand it to the engine: encoded, then decoded by RequestMessage.read under the
+        server's default version -> message, or None when it cannot be encoded / decoded as a whole"""
+        try:
+            v = req["version"]
+            kv = contents.protocol_version_to_kmip_version(version_obj(v)) or enums.KMIPVersion.KMIP_1_2
+            st = utils.BytearrayStream()
+            build_request(req).write(st, kmip_version=kv)
+            msg = messages.RequestMessage()
+            dv = contents.protocol_version_to_kmip_version(self.engine.default_protocol_version)
+            msg.read(utils.BytearrayStream(bytes(st.buffer)), kmip_version=dv)
+            return msg
+        except Exception:
+            return None
 
     def dump(self):
         from sqlalchemy.orm import sessionmaker
